@@ -39,8 +39,14 @@ theorem subset_sound {cur ks : KSet} (h : subset cur ks = true) {k : Kind} (hk :
 
 /-! ### stores -/
 
-theorem sound_nil (σ : Var → Kind) : Sound [] σ := by
-  intro x; simp [get, mem_allKinds]
+theorem sound_top (n : Nat) (σ : Var → Kind) : Sound (top n) σ := by
+  intro x
+  unfold get top
+  cases h : (List.replicate n allKinds)[x]? with
+  | none => exact mem_allKinds _
+  | some ks =>
+    have := List.mem_replicate.mp (List.mem_of_getElem? h)
+    rw [this.2]; exact mem_allKinds _
 
 theorem get_set (a : AStore) (x y : Var) (ks : KSet) :
     get (a.set x ks) y = if x = y then (if x < a.length then ks else allKinds) else get a y := by
@@ -293,6 +299,22 @@ theorem check_sound : ∀ (n : Nat) (s : Stmt) (a : AStore) (st : CState),
       have happ := List.append_eq_nil_iff.mp hc
       have g := IH n (by omega) e _ st happ.2 (sound_refine hs x hin)
       exact good_join_right g
+  | block body =>
+    simp only [check] at hc ⊢
+    cases hr : check body a with
+    | mk r e =>
+    rw [hr] at hc
+    simp only at hc ⊢
+    have g := IH n (by omega) body a st (by rw [hr]; exact hc) hs
+    rw [hr] at g
+    simp only [exec]
+    cases he : exec n body st with
+    | norm st' => rw [he] at g; exact goodO_joinO_left g
+    | brk st' => rw [he] at g; exact goodO_joinO_right g
+    | cont st' => rw [he] at g; exact g
+    | ret => simp [Good]
+    | stuck => simp [Good]
+    | panic p => rw [he] at g; exact g.elim
   | loop site body =>
     simp only [check] at hc ⊢
     generalize hinv : iterInv (fun a' => (check body a').1) invRounds a = inv at hc ⊢
@@ -320,7 +342,7 @@ skeleton leaves open). -/
 theorem safe_no_panic {s : Stmt} (h : flagged s = []) (n : Nat) (σ : Var → Kind) (orc : List Nat)
     (site : Site) : exec n s ⟨σ, orc⟩ ≠ .panic site := by
   intro he
-  have g := check_sound n s [] ⟨σ, orc⟩ h (sound_nil σ)
+  have g := check_sound n s (top (nvars s)) ⟨σ, orc⟩ h (sound_top _ σ)
   rw [he] at g
   exact g
 
